@@ -91,6 +91,12 @@ pub fn run(sim: &Sim, prop: &str, tier: Tier) -> Outcome {
         }
     } else {
         wire.borrow_mut().policy = schedule_policy(sim, mode, kind);
+        // rarely: one very long "no data yet" burst at one early unit position (on USART
+        // inside a frame this is a long wait that must simply be waited out)
+        if sim.chance(1) {
+            wire.borrow_mut().forced_wb = Some((sim.draw(60) as usize, sim.pick(&[12_000u32, 70_000])));
+            sim.probe("long_no_data_burst");
+        }
         let max_packets = match tier {
             Tier::Quick => 8,
             Tier::Thorough => 40,
